@@ -354,6 +354,7 @@ type k09Ev struct {
 	sig   hotstuff.QuorumSignature // nil = absent
 	syms  []k09Sig
 	label string
+	on    bool // 'A': the block becomes (true) / stops being (false) fetchable from the other replicas
 	// emptyOK: a BLS aggregate without participants whose point is the identity: it verifies and carries nothing
 	emptyOK bool
 }
@@ -364,7 +365,7 @@ func (e k09Ev) term(me uint64) string {
 		return fmt.Sprintf("(KBegin %s %s [G %s %s])", gN(uint64(e.blk.id)), gN(e.view), gN(me), gN(uint64(e.blk.id)))
 	case 'C':
 		return fmt.Sprintf("(KContrib %s %s %s)", gN(e.id), gN(e.view), k09OptSigs(e.sig != nil, e.syms))
-	case 'M':
+	case 'M', 'A':
 		return ""
 	default:
 		return fmt.Sprintf("(KTimer %s)", gN(e.view))
@@ -378,6 +379,11 @@ func (e k09Ev) short() string {
 		return fmt.Sprintf("contribution[%s] from %d view %d %s", e.label, e.id, e.view, k09OptSigs(e.sig != nil, e.syms))
 	case 'M':
 		return "membership grows to the full configuration"
+	case 'A':
+		if e.on {
+			return "block " + e.blk.name + " becomes fetchable from the other replicas"
+		}
+		return "block " + e.blk.name + " is no longer fetchable from the other replicas"
 	default:
 		return fmt.Sprintf("wait timer of view %d", e.view)
 	}
@@ -467,11 +473,39 @@ func (w *k09World) kauriCase(s *verifStream, stream string, me int, haveBlocks [
 	nqc, nsend := 0, 0
 	kinds := map[string]bool{}
 	var fails []func(meta any)
+	// for which blocks does blockchain.Get succeed right now: held locally, or fetchable at this moment
+	availNow := func() (ids []uint64, has map[*k09Block]bool) {
+		has = map[*k09Block]bool{}
+		for _, b := range w.all {
+			_, held := bc.LocalGet(b.blk.Hash())
+			_, fetch := sender.remote[b.blk.Hash()]
+			if held || fetch {
+				ids = append(ids, uint64(b.id))
+				has[b] = true
+			}
+		}
+		return ids, has
+	}
+	changing := false
+	var kAv []string
 	for i, e := range evs {
 		evT[i], evS[i] = e.term(meID), e.short()
 		kinds[string(e.kind)+e.label] = true
 		cur = nil
 		sender.sent = nil
+		if e.kind == 'A' {
+			changing = true
+			if e.on {
+				sender.remote[e.blk.blk.Hash()] = e.blk.blk
+			} else {
+				delete(sender.remote, e.blk.blk.Hash())
+			}
+			continue
+		}
+		availIDs, availHas := availNow()
+		if e.kind != 'M' {
+			kAv = append(kAv, fmt.Sprintf("(%s, %s)", gNs(availIDs), evT[i]))
+		}
 		func() {
 			defer func() {
 				if p := recover(); p != nil {
@@ -570,7 +604,7 @@ func (w *k09World) kauriCase(s *verifStream, stream string, me int, haveBlocks [
 				refNil, refAgg, refSenders = true, map[uint64]bool{}, map[uint64]bool{}
 			}
 		case 'C':
-			if refActive && e.view == refView && e.sig != nil && (len(e.syms) > 0 || e.emptyOK) && k09Has(haveBlocks, refBlock) {
+			if refActive && e.view == refView && e.sig != nil && (len(e.syms) > 0 || e.emptyOK) && availHas[refBlock] {
 				ok, _ := k09Genuine(w, e.syms, refBlock)
 				for _, sg := range e.syms {
 					if refAgg[sg.lab] {
@@ -654,7 +688,7 @@ func (w *k09World) kauriCase(s *verifStream, stream string, me int, haveBlocks [
 	// the kernel sees the stimuli without the membership growth
 	var kEv []string
 	for i, e := range evs {
-		if e.kind != 'M' {
+		if e.kind != 'M' && e.kind != 'A' {
 			kEv = append(kEv, evT[i])
 		}
 	}
@@ -684,6 +718,12 @@ func (w *k09World) kauriCase(s *verifStream, stream string, me int, haveBlocks [
 	}
 	for _, f := range fails {
 		f(meta)
+	}
+	if changing { // every stimulus paired with the blocks obtainable at that moment
+		w.v.Count("kauri-block-availability-changes")
+		w.v.Case(w.v.Stream(s.name+"av", "ka_mismatches", s.perFile), fmt.Sprintf("(%s, %s, %s, %s, %s, %s, (%s, %s, %s))", w.members, gNs(sub), gBool(leaf), gBool(w.scheme == crypto.NameBLS12),
+			gList(kAv), gList(obsT), finAgg, gBool(k.aggSent), gNs(snd)), meta)
+		return
 	}
 	w.v.Case(s, fmt.Sprintf("(%s, %s, %s, %s, %s, %s, %s, (%s, %s, %s))", w.members, gNs(sub), gBool(leaf), gNs(blockIDs), gBool(w.scheme == crypto.NameBLS12),
 		gList(kEv), gList(obsT), finAgg, gBool(k.aggSent), gNs(snd)), meta)
@@ -951,6 +991,45 @@ func TestVerifC09(t *testing.T) {
 				late = append(late, singles[1:]...)
 				late = append(late, k09Ev{kind: 'T', view: 5})
 				w.kauriCase(sPerm, "kauri-positions-late-"+scheme, me, have, late)
+			}
+		}
+	}
+
+	// (a4) block availability over time: the round's block is not held by the node; it can be fetched from the start,
+	// never, or only from some point of the round on (and possibly not any more later); mergeContribution fetches
+	// it for every contribution
+	for _, n := range []int{4, 7} {
+		w := world(crypto.NameECDSA, n)
+		B, C := w.blocks["B"], w.blocks["C"]
+		for _, me := range []int{1, 2} {
+			var singles []k09Ev
+			for i := 1; i <= n; i++ {
+				if i != me {
+					singles = append(singles, group(w, "single", uint64(i), 5, B, i))
+				}
+			}
+			singles = append(singles, singles[0])     // and a late duplicate
+			for on := 0; on <= len(singles)+1; on++ { // len+1 = never
+				offs := []int{-1}
+				if on <= len(singles) {
+					offs = append(offs, on+1, on+2)
+				}
+				for _, off := range offs {
+					evs := []k09Ev{{kind: 'B', blk: B, view: 5}}
+					for i := 0; i <= len(singles); i++ {
+						if i == on {
+							evs = append(evs, k09Ev{kind: 'A', blk: B, on: true})
+						}
+						if i == off {
+							evs = append(evs, k09Ev{kind: 'A', blk: B, on: false})
+						}
+						if i < len(singles) {
+							evs = append(evs, singles[i])
+						}
+					}
+					evs = append(evs, k09Ev{kind: 'T', view: 5})
+					w.kauriCase(sPerm, "kauri-availability", me, []*k09Block{C}, evs)
+				}
 			}
 		}
 	}
